@@ -61,6 +61,12 @@ FLAVOUR = {
    B. SHARING: per-request / per-call / per-connection data put somewhere that outlives the call or is visible to another call - an attribute of a long-lived application / router / response / parser object, a class attribute, a module global, a default argument, a closure variable captured once, a contextvar or threading.local used on the wrong side of a thread or task hand-off, a buffer / list / dict reused between calls "to avoid allocations", an object returned to the caller that the library keeps changing (or a caller's object the library keeps and changes).
    C. LIFETIME: something released, closed, reset or forgotten too early or too late - a file / descriptor / iterator / generator closed before its last use or never on one path, a weak reference or `__del__` relied upon, a cache entry that outlives the thing it describes (a file that changes, an object whose id is reused), state reset at the START of the next use instead of the END of this one, one-time initialisation that is not safe to run twice or from two callers at once, an object that cannot be used a second time although it could before (or the reverse: silently reused although it must not be).
  Ordinary everyday use - one request at a time, one object used once - must keep working: do NOT make a change that the first simple request would expose.""",
+ 16: """This round is about the GRAMMAR and the ARITHMETIC of the protocols; make one change of each kind (pick, within each kind, what fits this property's code best; for properties about plain data structures take 'header' to mean key / parameter / token, and 'message' to mean value):
+   A. MESSAGE SEMANTICS that depend on the METHOD or the STATUS: HEAD vs GET vs POST / PUT / DELETE / OPTIONS, bodies and Content-Length on 1xx / 204 / 304 / 206 / 416 / redirects, which of two conditional or range headers wins, what an error answer carries over from the normal one (validators, Vary, cookies, Accept-Ranges, content type), what a second call / an upgrade / a close frame may still do - handled right for the everyday combination and wrong for a legal rarer one.
+   B. FIELD SYNTAX: optional whitespace (leading, trailing, around ',' ';' '=' ':'), TAB vs space, empty list members, case-insensitive names / tokens / parameter names versus case-sensitive values, quoted-string vs token (quotes, backslash pairs, a ';' or ',' or '=' inside quotes), parameter order and repetition, a trailing ';' or ',', a repeated header field versus one comma-joined field, weak vs strong validators, 'bytes' unit spelling, percent-encoding case (%2f vs %2F), IPv6 brackets, absolute vs origin form, CRLF vs bare LF, a BOM - one legal spelling is now read or written wrongly.
+   C. UNITS, BOUNDS and NUMBER FORMATS: bytes vs characters (len of str vs len of its encoding), inclusive vs exclusive ends, 0 vs None vs absent vs negative, seconds vs milliseconds, int vs float (truncation vs rounding, 1e3, '1.0', '+1', '01', ' 1', '1_000', non-ASCII digits), the 2**31 / 2**32 / 2**53 / 2**63 thresholds, status / port / close-code ranges, max-age and retry limits, off-by-one at exactly a limit, a year or day boundary of a date.
+ Ordinary everyday use must keep working - do NOT make a change that the first simple request would expose.""",
+
 
  5: """This round is about interactions; make three changes, each of which needs TWO things at once to show (neither alone exposes it): e.g. a feature used through a second public entry point, inside a mount or middleware, on the second use of an object, with a particular header present, with a particular chunking AND a particular content, on one interface only AND only for one method. Ordinary everyday use must keep working - do NOT make a change that the first simple request would expose.""",
 }
